@@ -272,6 +272,23 @@ def auto_worker(arg: tuple) -> list:
     return out
 
 
+def final_coverage_zero(res: dict) -> list:
+    """Actions never taken according to the LAST coverage snapshot of a TLC run (run_tlc's `coverage_zero`
+    also counts the intermediate snapshots TLC prints every minute, where late actions still show 0)."""
+    import re as _re
+
+    out = res.get("out", "")
+    k = out.rfind("The coverage statistics at")
+    if k < 0:
+        return sorted(res.get("coverage_zero") or [])
+    zero = []
+    for line in out[k:].splitlines():
+        m = _re.match(r"^<(\w+) line \d+, col \d+ to line \d+, col \d+ of module \w+>: (\d+):(\d+)", line.strip())
+        if m and int(m.group(3)) == 0:
+            zero.append(m.group(1))
+    return sorted(set(zero))
+
+
 # ------------------------------------------------------------------------------------------- TLC side
 INV = ["InRange", "NoOverwrite", "BondsFit", "SlotFree", "PathBag"]
 
@@ -370,12 +387,13 @@ def run(ctx: Ctx) -> None:
             if len(model[(kind, int(ns))]) != 2 ** (int(ns) * (int(ns) - 1) // 2):
                 raise MachineryError(f"TLC printed {len(model[(kind, int(ns))])} factor lists for {j[0]}")
             continue
+        res["coverage_zero"] = final_coverage_zero(res)
         ctx.add_tlc(res)
         if res["violated"]:
             model_bad.append((j[0], res["violated"]))
             ctx.log(f"TLC: the mechanism model violates {res['violated']} in {j[0]} (see {res['outfile']})")
-        if res.get("coverage_zero"):
-            ctx.notes.append(f"{j[0]}: spec actions never taken: {res['coverage_zero']}")
+        if final_coverage_zero(res):
+            ctx.notes.append(f"{j[0]}: spec actions never taken: {final_coverage_zero(res)}")
         ctx.log(f"TLC {j[0]}: {res.get('distinct')} states, {res['wall_s']} s")
     ctx.coverage["tlc_model_violations"] = [f"{a}: {b}" for a, b in model_bad]
 
@@ -452,6 +470,7 @@ def run(ctx: Ctx) -> None:
         for res in ex.map(rec_job, files):
             if not res["ok"]:
                 raise MachineryError(f"MPORecorded did not complete: see {res['outfile']}")
+            res["coverage_zero"] = final_coverage_zero(res)
             ctx.add_tlc(res)
             for t in printed_tuples(res["out"]):
                 if t[0] == "OK":
